@@ -240,6 +240,99 @@ def gen_history(rng, td_paths, consolidated_at):
     pass
 
 
+def compare_history(run, m, td, case, consolidated, is_current):
+    """model answer `m` of c11.history vs the tensordict `td` after the same history: state, snapshot, freshness, pickle, deepcopy"""
+    m_fresh, m_lay, m_fixed, m_pinned, m_obs = m[0], m[1], norm_model_obs(m[2]), norm_model_obs(m[3]), norm_model_obs(m[4])
+    run.corr("history.state", case, obs_of(td), m_obs)
+    if consolidated:
+        cons = td._consolidated
+        impl_lay = [[[m_[0], m_[1], m_[2], m_[3]] for m_ in sorted(flat_meta(cons["metadata"]), key=lambda m_: (m_[3][0], m_[3][1], m_[0]))], list(cons["storage"].tolist())]
+        model_lay = [sorted([[list(x[0]), x[1], list(x[2]), list(x[3])] for x in m_lay[0]], key=lambda m_: (m_[3][0], m_[3][1], m_[0])), list(m_lay[1])]
+        run.corr("history.snapshot(layout, storage)", case, impl_lay, model_lay)
+        if is_current is not None:
+            run.corr("history.freshness", case, "fresh" if is_current(td, cons) else "stale", m_fresh)
+    for how in ("pickle", "deepcopy"):
+        try:
+            with time_limit(120):
+                r = pickle.loads(pickle.dumps(td)) if how == "pickle" else copy.deepcopy(td)
+            got = by_path(obs_of(r))
+        except TimeoutError as e:
+            raise Infra(f"{how} timed out: {e}")
+        except Exception as e:  # noqa: BLE001
+            got = ["err", f"{type(e).__name__}: {str(e)[:120]}"]
+        run.corr(f"history.{how}(reduceFixed)", case, dev_norm(got) if got[0] != "err" else got, dev_norm(by_path(m_fixed)))
+        now = by_path(obs_of(td))
+        if got == now:
+            run.oracle_ok("pickle_equals_now")
+        elif got[0] != "err" and dev_norm(got) == dev_norm(now):
+            # only the device of a file-consolidated tensordict (cpu) vs its metadata (None) differs
+            run.oracle_fail("pickle_equals_now", case, f"{how}: device of the rebuilt tensordict differs (file-consolidated: cpu vs None)", f"{how}:file-consolidated:device-none-vs-cpu")
+        else:
+            from c11_canon import first_diff
+            run.oracle_fail("pickle_equals_now", case, f"{how} returned a tensordict that differs from the one serialised: {first_diff(now, got)}; snapshot was {m_fresh}", f"{how}:{m_fresh}")
+    return m_fresh
+
+
+def tensor_from(dtype_name, shape, bs):
+    from tensordict.utils import _STRDTYPE2DTYPE
+    dt = _STRDTYPE2DTYPE[dtype_name]
+    if not bs:
+        return torch.zeros(shape, dtype=dt)
+    raw = torch.tensor(bs, dtype=torch.uint8)
+    if dt == torch.bool:
+        return raw.to(torch.bool).reshape(shape)
+    return raw.view(dt).reshape(shape).clone()
+
+
+def replay_histories(run, drv, cases, scratch):
+    """re-run recorded histories (corpus entries or the failures of a replay file)"""
+    from tensordict import TensorDict
+    import tensordict._reductions as R
+    is_current = getattr(R, "_consolidated_is_current", None)
+    n = 0
+    for ci, c in enumerate(cases):
+        if not (isinstance(c, dict) and "ops" in c and "entries" in c and "nodes" in c):
+            continue
+        n += 1
+        root = [x for x in c["nodes"] if x[0] == []][0]
+        td = TensorDict({}, batch_size=root[1], device=root[3], names=root[2])
+        node_meta = {tuple(x[0]): x for x in c["nodes"]}
+        for path, dt, _isz, shape, bs in c["entries"]:
+            # sub-tensordicts are created when their first leaf arrives: same key order as in the original construction
+            for depth in range(1, len(path)):
+                pre = tuple(path[:depth])
+                if pre not in td.keys(True):
+                    nm = node_meta[pre]
+                    td[pre] = TensorDict({}, batch_size=nm[1], device=nm[3], names=nm[2])
+            td[tuple(path)] = tensor_from(dt, shape, bs)
+        consolidated = False
+        for op in c["ops"]:
+            kind = op[0]
+            if kind == "consolidate":
+                kw = {"filename": scratch / f"replay{ci}.mmap"} if op[1] else {}
+                td = td.consolidate(**kw)
+                consolidated = True
+            elif kind == "set":
+                td[tuple(op[1])] = tensor_from(op[2], op[4], op[5])
+            elif kind == "del":
+                del td[tuple(op[1])]
+            elif kind == "inplace":
+                t = td[tuple(op[1])]
+                t.copy_(tensor_from(str(t.dtype), list(t.shape), op[2]))
+            elif kind == "lock":
+                td.lock_()
+            elif kind == "unlock":
+                td.unlock_()
+            elif kind == "names":
+                td.names = op[1]
+            elif kind == "rename":
+                td.rename_key_(tuple(op[1]), tuple(op[2]))
+        m = parse_sx(drv.ask(sx("c11.history", c["nodes"], c["entries"], c["ops"])))
+        run.case(("history-replay", ci))
+        compare_history(run, m, td, c, consolidated, is_current)
+    return n
+
+
 def run_histories(run, drv):
     from tensordict import TensorDict
     import tensordict._reductions as R
@@ -361,45 +454,15 @@ def run_histories(run, drv):
             if aborted:
                 continue
             reqs.append(sx("c11.history", init_nodes, init_entries, ops_sx))
-            metas.append((len(reqs) - 1, td, ops_sx, kinds_used, consolidated))
+            metas.append((len(reqs) - 1, td, ops_sx, kinds_used, consolidated, init_nodes, init_entries))
         answers = [parse_sx(a) for a in ask_batched(drv, reqs, 20)]
-        for (h, td, ops_sx, kinds_used, consolidated), m in zip(metas, answers):
+        for (h, td, ops_sx, kinds_used, consolidated, init_nodes, init_entries), m in zip(metas, answers):
             run.case(("history", h, str(ops_sx)[:400]), nontrivial=len(ops_sx) > 1)
             for k in kinds_used:
                 run.count("history.op", k)
-            m_fresh, m_lay, m_fixed, m_pinned, m_obs = m[0], m[1], norm_model_obs(m[2]), norm_model_obs(m[3]), norm_model_obs(m[4])
+            case = {"ops": ops_sx, "nodes": init_nodes, "entries": init_entries}
+            m_fresh = compare_history(run, m, td, case, consolidated, is_current)
             run.count("history.snapshot", m_fresh)
-            case = {"ops": ops_sx, "init": reqs[h][:300]}
-            # the model tracks the tensordict itself
-            run.corr("history.state", case, obs_of(td), m_obs)
-            # snapshot: layout, storage (incl. in-place writes that went through), freshness
-            if consolidated:
-                cons = td._consolidated
-                impl_lay = [[[m_[0], m_[1], m_[2], m_[3]] for m_ in sorted(flat_meta(cons["metadata"]), key=lambda m_: (m_[3][0], m_[3][1], m_[0]))], list(cons["storage"].tolist())]
-                model_lay = [sorted([[list(x[0]), x[1], list(x[2]), list(x[3])] for x in m_lay[0]], key=lambda m_: (m_[3][0], m_[3][1], m_[0])), list(m_lay[1])]
-                run.corr("history.snapshot(layout, storage)", case, impl_lay, model_lay)
-                if is_current is not None:
-                    run.corr("history.freshness", case, "fresh" if is_current(td, cons) else "stale", m_fresh)
-            # serialise / deserialise
-            for how in ("pickle", "deepcopy"):
-                try:
-                    with time_limit(120):
-                        r = pickle.loads(pickle.dumps(td)) if how == "pickle" else copy.deepcopy(td)
-                    got = by_path(obs_of(r))
-                except TimeoutError as e:
-                    raise Infra(f"{how} timed out: {e}")
-                except Exception as e:  # noqa: BLE001
-                    got = ["err", f"{type(e).__name__}: {str(e)[:120]}"]
-                run.corr(f"history.{how}(reduceFixed)", case, dev_norm(got) if got[0] != "err" else got, dev_norm(by_path(m_fixed)))
-                now = by_path(obs_of(td))
-                if got == now:
-                    run.oracle_ok("pickle_equals_now")
-                elif got[0] != "err" and dev_norm(got) == dev_norm(now):
-                    # only the device of a file-consolidated tensordict (cpu) vs its metadata (None) differs
-                    run.oracle_fail("pickle_equals_now", case, f"{how}: device of the rebuilt tensordict differs (file-consolidated: cpu vs None)", f"{how}:file-consolidated:device-none-vs-cpu")
-                else:
-                    from c11_canon import first_diff
-                    run.oracle_fail("pickle_equals_now", case, f"{how} returned a tensordict that differs from the one serialised: {first_diff(now, got)}; snapshot was {m_fresh}", f"{how}:{m_fresh}")
             if h < 3:
                 run.sample({"stream": "history", "ops": ops_sx, "model_fresh": m_fresh})
     finally:
